@@ -3,7 +3,7 @@
    the observations satisfy the boolean Spec (all clauses but the no-clobber one,
    whose input is not reproduced by the model). *)
 From Boltons Require Import Lib.Prelude Model.C04_Model Spec.C04_Spec Check.C04_Check Spec.C05_Spec Check.C05_Check
-     Proofs.C04_Hoare Proofs.C04_Inv Proofs.C04_Transfer Proofs.C05_Basic Proofs.C05_Inv Proofs.C05_Live Proofs.C05_Retry Proofs.C05_Intrude.
+     Proofs.C04_Hoare Proofs.C04_Inv Proofs.C04_Transfer Proofs.C05_Basic Proofs.C05_Inv Proofs.C05_Live Proofs.C05_Retry Proofs.C05_Intrude Proofs.C04_Abort Proofs.C05_Invalid.
 Open Scope nat_scope.
 Arguments upd {A} f k v x : simpl never.
 
@@ -158,10 +158,9 @@ Qed.
 Theorem agree5_implies_holds5_core (c : c05_case) :
   c_dest (k_cfg (k5_base c)) <> c_part (k_cfg (k5_base c)) ->
   same_dir (c_part (k_cfg (k5_base c))) = true ->
-  c_fdopen_invalid (k_cfg (k5_base c)) = false ->
   agree5 c = true -> known5 c = false -> holds5_core c = true.
 Proof.
-  intros Hdp Hpd Hval Ha Hk.
+  intros Hdp Hpd Ha Hk.
   unfold agree5 in Ha. apply andb_true_iff in Ha as [Ha Hretry]. apply andb_true_iff in Ha as [Hcase Hagree].
   unfold holds5_core. rewrite (agree_implies_holds _ Hdp Hpd Hagree), andb_true_r.
   set (b := k5_base c) in *. set (g := k_cfg b) in *.
@@ -220,7 +219,9 @@ Proof.
   (* clause: failed / completed *)
   destruct o as [x|e|]; [| |contradiction].
   - (* completed *)
-    rewrite Hout. cbn [is_raise]. rewrite Hval. cbn [negb]. rewrite andb_true_r.
+    rewrite Hout. cbn [is_raise].
+    destruct (c_fdopen_invalid g) eqn:Hval; [exfalso; eapply (invalid_never_val g Hval); exact Er|].
+    cbn [negb]. rewrite andb_true_r.
     destruct HF as (Hk1 & _ & Hpn & (m & Hm & Hpm) & _ & _).
     unfold completed_ok. rewrite present_model, Hpn. cbn [negb]. rewrite andb_true_r.
     unfold content_kill, mode_of in *. unfold model_file at 1.
@@ -244,7 +245,28 @@ Proof.
     { eapply files_agree_file; eauto. apply in_or_app. left. unfold cands. left. reflexivity. }
     assert (Hp2 : assoc (c_part g) (r_files r2) = model_file (w_fs w2) (c_part g)).
     { eapply files_agree_file; eauto. apply in_or_app. left. unfold cands. right. left. reflexivity. }
-    rewrite Hd2, Hp2, !present_model, Hval.
+    rewrite Hd2, Hp2, !present_model.
+    pose proof (final_wf g _ _ _ _ None _ _ w Hdp Hpd Hwf Er) as Hwf2.
+    destruct (c_fdopen_invalid g) eqn:Hval.
+    { (* arguments the io layer rejects: the retry fails the same way and leaves things as they are *)
+      assert (Hexc : is_raise (r_outcome r2) = true).
+      { destruct o2 as [x2|e2|]; [exfalso; eapply (invalid_never_val g Hval); exact Er2|exact Hout2|contradiction]. }
+      assert (Hdest : ofile_eqb (model_file (w_fs w2) (c_dest g)) (model_file (w_fs w) (c_dest g)) = true).
+      { destruct (run_safe g ops' false (w_fs w) (k_umask b) None [] Hdp Hpd Hwf2) as [(Hs & _) _].
+        rewrite Er2 in Hs. cbn [snd] in Hs.
+        pose proof (invalid_np g Hval ops' false (w_fs w) (k_umask b) None []) as Hnp. rewrite Er2 in Hnp. cbn [snd] in Hnp.
+        pose proof (np_not_published g w2 Hnp) as Hpub.
+        assert (Hold : dest_old g (w_fs w) [] (w_fs w2)).
+        { destruct Hs as [((_ & H & _) & _) | (_ & _ & _ & _ & Hp')]; [exact H|congruence]. }
+        pose proof (cl_dest_unchanged g (w_fs w) [] (w_fs w2) Hold) as Hdu.
+        unfold dest_unchanged in Hdu. cbn [appeared_files flat_map existsb] in Hdu.
+        destruct (model_file (w_fs w2) (c_dest g)); rewrite ?andb_false_r, ?orb_false_r in Hdu; exact Hdu. }
+      rewrite Hexc, Hdest. cbn [andb].
+      destruct (negb (c_overwrite g) && match f_dir (w_fs w) (c_dest g) with Some _ => true | None => false end); [reflexivity|].
+      destruct (c_rm_part_on_exc g) eqn:Hrm; [|apply orb_true_r].
+      destruct (f_dir (w_fs w) (c_part g)) eqn:Ejp; [cbn [negb]; rewrite orb_false_r, orb_true_r; reflexivity|].
+      pose proof (invalid_run_part g ops' (w_fs w) (k_umask b) Hdp Hval Hrm Ejp) as Hpn. rewrite Er2 in Hpn. cbn [snd] in Hpn.
+      rewrite Hpn. reflexivity. }
     destruct (c_overwrite g) eqn:Eow; cbn [negb andb].
     + (* overwrite: the retry must go through unless a stale part file blocks it *)
       destruct (f_dir (w_fs w) (c_part g)) as [jp|] eqn:Ejp.
@@ -300,11 +322,10 @@ Qed.
 Theorem agree5_implies_holds5 (c : c05_case) :
   c_dest (k_cfg (k5_base c)) <> c_part (k_cfg (k5_base c)) ->
   same_dir (c_part (k_cfg (k5_base c))) = true ->
-  c_fdopen_invalid (k_cfg (k5_base c)) = false ->
   agree5 c = true -> known5 c = false -> holds5 c = true.
 Proof.
-  intros Hdp Hpd Hval Ha Hk. unfold holds5.
-  rewrite (agree5_implies_holds5_core c Hdp Hpd Hval Ha Hk). cbn [andb].
+  intros Hdp Hpd Ha Hk. unfold holds5.
+  rewrite (agree5_implies_holds5_core c Hdp Hpd Ha Hk). cbn [andb].
   unfold agree5 in Ha. apply andb_true_iff in Ha as [Ha _]. apply andb_true_iff in Ha as [_ Hagree].
   unfold agree in Hagree. apply andb_true_iff in Hagree as [Hagree _]. apply andb_true_iff in Hagree as [Hrun _].
   unfold agree_run in Hrun. destruct (run_model (k5_base c) None) as [o w] eqn:Er.
